@@ -96,3 +96,29 @@ Lemma link_layout h : hdr_ok h ->
 Proof.
   intros OK. unfold word_at. rewrite (words_hdr_bytes h OK). repeat split; reflexivity.
 Qed.
+
+(* the SIZES of the fields as the source declares them now: every length / opcode field is one 32-bit word (le32 in the
+   model), generation and timeout are 64 bit (two words), the fields of each union member are adjacent (no padding the model
+   does not know of), the union starts right after the filler and ends with the header.  A changed field type breaks this
+   lemma even when no offset moves (e.g. the last field of a member). *)
+Lemma link_field_sizes :
+  (  g_size_of_opcode = 4 /\ g_size_of_size = 4 /\ g_size_of_filler = 8 /\ g_size_of_operations = 24 /\
+  g_size_of_fetch_current_gen = 8 /\ g_size_of_fetch_key_len = 4 /\ g_size_of_rise_trigger_len = 4 /\
+  g_size_of_store_timeout = 8 /\ g_size_of_store_key_len = 4 /\ g_size_of_store_data_len = 4 /\ g_size_of_store_triggers_len = 4 /\
+  g_size_of_data_generation = 8 /\ g_size_of_data_timeout = 8 /\ g_size_of_data_data_len = 4 /\ g_size_of_data_triggers_len = 4 /\
+  g_size_of_out_stats_keys = 4 /\ g_size_of_out_stats_triggers = 4 /\
+  g_off_size = g_off_opcode + g_size_of_opcode /\ g_off_filler = g_off_size + g_size_of_size /\
+  g_off_operations = g_off_filler + g_size_of_filler /\ g_size_of_header = g_off_operations + g_size_of_operations /\
+  g_off_fetch_current_gen = g_off_operations /\ g_off_fetch_key_len = g_off_fetch_current_gen + g_size_of_fetch_current_gen /\
+  g_size_of_fetch_struct = g_size_of_fetch_current_gen + g_size_of_fetch_key_len + 4 /\
+  g_off_rise_trigger_len = g_off_operations /\
+  g_off_store_timeout = g_off_operations /\ g_off_store_key_len = g_off_store_timeout + g_size_of_store_timeout /\
+  g_off_store_data_len = g_off_store_key_len + g_size_of_store_key_len /\
+  g_off_store_triggers_len = g_off_store_data_len + g_size_of_store_data_len /\
+  g_off_store_triggers_len + g_size_of_store_triggers_len + 4 = g_off_operations + g_size_of_store_struct /\
+  g_off_data_generation = g_off_operations /\ g_off_data_timeout = g_off_data_generation + g_size_of_data_generation /\
+  g_off_data_data_len = g_off_data_timeout + g_size_of_data_timeout /\
+  g_off_data_triggers_len = g_off_data_data_len + g_size_of_data_data_len /\
+  g_off_data_triggers_len + g_size_of_data_triggers_len = g_off_operations + g_size_of_data_struct /\
+  g_off_out_stats_keys = g_off_operations /\ g_off_out_stats_triggers = g_off_out_stats_keys + g_size_of_out_stats_keys)%Z.
+Proof. repeat split; reflexivity. Qed.
